@@ -114,11 +114,17 @@ class MediaRequestBase(RequestHandlerBase):
         atom = self.load_fragment(media, 0, options)
         if representation.encrypted:
             keys = models.Key.get_kids(representation.kids)
-            drms = DrmContext(media.stream, keys, options)
-            for drm in drms:
-                if drm.moov is not None:
-                    pssh = drm.moov(representation.default_kid)
-                    atom.moov.append_child(pssh)
+            try:
+                drms = DrmContext(media.stream, keys, options)
+                for drm in drms:
+                    if drm.moov is not None:
+                        pssh = drm.moov(representation.default_kid)
+                        atom.moov.append_child(pssh)
+            except ValueError as err:
+                # e.g. a license URL whose expanded form does not fit into
+                # a PlayReady Object
+                logging.warning('Invalid DRM parameters: %s', err)
+                return flask.make_response('Invalid DRM parameters', 400)
         if mode == 'live':
             try:
                 # remove the mehd box as this stream is not supposed to
@@ -218,7 +224,8 @@ class MediaRequestBase(RequestHandlerBase):
 
         # Update the sequenceNumber field in the MovieFragmentHeader
         # box
-        moof.mfhd.sequence_number = seg_num
+        # (a 32 bit field: a live stream with a very old start time wraps)
+        moof.mfhd.sequence_number = seg_num & 0xFFFFFFFF
         diff = None
         if seg_time is not None:
             diff = seg_time - tfdt.base_media_decode_time
